@@ -12,7 +12,7 @@ CHECKS = {
    ref="DESIGN.md §3 C01"),
  "C02": dict(
    technique="path-condition entailment over enumerated reconciler paths (guarded-effect analysis on the type-checked AST), ownership of cursor writes",
-   text="Every ordering guard of the v2 protocol (transaction init order, chain linking, validate/commit/apply cursor guards, apply-after-commit, own-index cursor writes, no terminal state with a cursor left on the predecessor) is shown to dominate its effect on every enumerated path of the v2 proposal and transaction reconcilers. This decides the code shape that makes log order hold on every schedule; it does not observe orders at run time. Also decided: a transaction phase finishes only when every proposal finished it.",
+   text="Every ordering guard of the v2 protocol (transaction init order, chain linking, validate/commit/apply cursor guards, apply-after-commit, own-index cursor writes, no terminal state with a cursor left on the predecessor) is shown to dominate its effect on every enumerated path of the v2 proposal and transaction reconcilers. This decides the code shape that makes log order hold on every schedule; it does not observe orders at run time. Also decided: a transaction phase finishes only when every proposal finished it. Also decided: the committed cursor is written after the values it stands for (store write order), and the proposals of one target are keyed to one worker (the partition key is the proposal id cut at its last '-', which NewID builds from the target id).",
    note="Trusted: go/types, the occheck path enumerator/canonicaliser/literal solver, the obligation table. Not covered: interleavings between a guard and its write (relies on C15's version-checked writes), device behaviour.",
    ref="DESIGN.md §3 C02, §2"),
  "C07": dict(
@@ -22,22 +22,22 @@ CHECKS = {
    ref="DESIGN.md §3 C07"),
  "C09": dict(
    technique="outcome tables over enumerated paths (which class of paths must return which re-queue / error), frozen watcher event-to-id tables",
-   text="The wake-up obligations the fixed-point argument rests on are decided: predecessor waits re-queue the predecessor, terminal states of cursor-advancing phases re-queue the successor, Validate entry and failed Initialize re-queue index+1, watcher bodies send exactly the frozen ids, unclassified store failures are returned as errors. Liveness itself is not decided. Also decided: every watcher a controller package defines is registered by its constructor with its dependencies, the manager starts every controller and returns a failed start, and a record with an open phase reaches that phase's function whatever else it says.",
+   text="The wake-up obligations the fixed-point argument rests on are decided: predecessor waits re-queue the predecessor, terminal states of cursor-advancing phases re-queue the successor, Validate entry and failed Initialize re-queue index+1, watcher bodies send exactly the frozen ids, unclassified store failures are returned as errors. Liveness itself is not decided. Also decided: every watcher a controller package defines is registered by its constructor with its dependencies, the manager starts every controller and returns a failed start, and a record with an open phase reaches that phase's function whatever else it says. Also decided: store-event watchers forward whatever the event's type; replayed transaction events carry their log index.",
    note="Trusted: as C02 plus the frozen wake-up table. Known finding F24 (serializable waits carry no wake-up) is listed. Not covered: delivery by the controller library, new kinds of waits.",
    ref="DESIGN.md §3 C09"),
  "C10": dict(
    technique="ownership of term/master writes (operator and package), path-condition entailment of election and master guards, request dataflow (arbitration extension), who-may-call",
-   text="The term is shown to be written by ++ only, in the election branch only; a master is assigned only together with a term increment and only from the CONTROLS/self/target-filtered relation set; CONTROLS relations mirror connections; every southbound Set is sent over the master relation's connection under the master guards and carries the term as election id; no new change is sent while SYNCHRONIZING or in a stale applied term. Also decided: an election or resignation is persisted and a failed write retried; the relation literal is a RELATION.",
+   text="The term is shown to be written by ++ only, in the election branch only; a master is assigned only together with a term increment and only from the CONTROLS/self/target-filtered relation set; CONTROLS relations mirror connections; every southbound Set is sent over the master relation's connection under the master guards and carries the term as election id; no new change is sent while SYNCHRONIZING or in a stale applied term. Also decided: an election or resignation is persisted and a failed write retried; the relation literal is a RELATION. Also decided: every write of the configuration record is conditional on the version the writer read.",
    note="Trusted: as C02. Not covered: simultaneous beliefs of several nodes, the device's arbitration.",
    ref="DESIGN.md §3 C10"),
  "C04": dict(
    technique="loop-gate evaluation over enumerated paths (push loop), path-condition entailment, request dataflow (sent == recorded), outcome tables for offline branches, primitive-naming rule on the stores, request-builder case analysis",
-   text="The re-push gate, the entry into SYNCHRONIZING, the apply guards against a stale term, the equality of what is sent and what is recorded as applied, the write-free offline branches, the distinctness of the committed/applied Atomix primitives and the totality of the SetRequest builder are decided from the code. Convergence of a real device is not. Also decided: the collected values are pushed when there are any, a completed re-push (or the nothing-applied shortcut) records SYNCHRONIZED in the current term and master, and every assignment of a master starts a new term.",
+   text="The re-push gate, the entry into SYNCHRONIZING, the apply guards against a stale term, the equality of what is sent and what is recorded as applied, the write-free offline branches, the distinctness of the committed/applied Atomix primitives and the totality of the SetRequest builder are decided from the code. Convergence of a real device is not. Also decided: the collected values are pushed when there are any, a completed re-push (or the nothing-applied shortcut) records SYNCHRONIZED in the current term and master, and every assignment of a master starts a new term. Also decided: the connection life cycle (a replaced connection is a new connection with a new id) and the order of the two writes of UpdateStatus (applied values before the applied cursor).",
    note="Trusted: as C02. Not covered: device state, histories with faults. The primitive-sharing defect found by this check was repaired (fix commit 8e55a12).",
    ref="DESIGN.md §3 C04"),
  "C05": dict(
    technique="must-pass-through and receiver identity of the plugin call, provenance dataflow of the validated document over enumerated paths, verdict outcome table, chunk-cursor rule",
-   text="VALIDATED is shown to require a successful Validate on the plugin of the proposal's own type/version; the validated bytes are shown to be BuildTree of a slice filled from the full candidate map (all of Configuration.Values plus exactly the change source that commit later merges); the registry is shown to honour the verdict and to stream the document with an exact chunk cursor. Also decided: the registry's Validate returns nil only after every stream error was tested and the plugin's Valid flag read; every proposal of a transaction is validated before the transaction is.",
+   text="VALIDATED is shown to require a successful Validate on the plugin of the proposal's own type/version; the validated bytes are shown to be BuildTree of a slice filled from the full candidate map (all of Configuration.Values plus exactly the change source that commit later merges); the registry is shown to honour the verdict and to stream the document with an exact chunk cursor. Also decided: the registry's Validate returns nil only after every stream error was tested and the plugin's Valid flag read; every proposal of a transaction is validated before the transaction is. Also decided: validated values are stored before the committed cursor that claims them.",
    note="Trusted: as C02; assumes stored proposals have their Details oneof set (shown for both creating literals in C01.7c). Not covered: contents of the JSON document (BuildTree), leaf-for-leaf equality.",
    ref="DESIGN.md §3 C05"),
  "C06": dict(
@@ -47,47 +47,47 @@ CHECKS = {
    ref="DESIGN.md §3 C06"),
  "C11": dict(
    technique="finite-domain evaluation of the apply-error classification over all gRPC codes, error-domain agreement between classifier and producers (resolved through interface implementations), composition of four hand-written class tables",
-   text="For each of the 17 gRPC codes the outcome class of the apply step (retry / wait / record refusal with the right class and cursor order) is decided; every error classifier is shown to be applied in the domain its argument's producers are in; the device-code to caller-status composition is shown to be the identity on refusals. Also decided: refused values never enter the applied map, a wait on a predecessor is infeasible for a FAILED predecessor, and a computed FAILED verdict is not lost to a swallowed conflict (fails today: known finding F27).",
+   text="For each of the 17 gRPC codes the outcome class of the apply step (retry / wait / record refusal with the right class and cursor order) is decided; every error classifier is shown to be applied in the domain its argument's producers are in; the device-code to caller-status composition is shown to be the identity on refusals. Also decided: refused values never enter the applied map, a wait on a predecessor is infeasible for a FAILED predecessor, and a computed FAILED verdict is not lost to a swallowed conflict (fails today: known finding F27). Also decided: the cascade helper is never handed the applied record; the proposal controller's configuration watcher maps to the proposal at the applied cursor.",
    note="Trusted: as C02 plus the source of onos-lib-go errors in the module cache. The classifier-domain defect found (status.Code on a TypedError) was repaired (fix commit e6b405d). Not covered: device-side state, retry timing.",
    ref="DESIGN.md §3 C11"),
  "C08": dict(
    technique="finite-domain evaluation of the handlers' wait loops over Synchronicity x State x Failure type; must-precede and argument dataflow for Create/Watch/response",
-   text="Both wait loops are evaluated for every (synchronicity, state) pair and every failure type: success, error and keep-waiting cells must match the required table, the failure class table must be total and exact, Create must succeed before a Watch that carries WithReplay and the created id, and the response must be built from the created record. Delivery and timing are not decided. Also decided: the transaction store registers the handler's watcher before the replay read and keeps it registered when other watchers of the same record leave.",
+   text="Both wait loops are evaluated for every (synchronicity, state) pair and every failure type: success, error and keep-waiting cells must match the required table, the failure class table must be total and exact, Create must succeed before a Watch that carries WithReplay and the created id, and the response must be built from the created record. Delivery and timing are not decided. Also decided: the transaction store registers the handler's watcher before the replay read and keeps it registered when other watchers of the same record leave. Also decided: the transaction store's dispatcher leaves its loop only at the end of the stream; a failed Watch, newUpdateResult or Marshal ends the request with an error; the success response's result list is the list the update results were appended to and carries the transaction-info extension of the created transaction; a FAILED transaction is never answered without a constructed error; RollbackTransaction logs a SYNCHRONOUS rollback of the request's index.",
    note="Trusted: as C02. The (ASYNC, APPLIED) cell was wrong in both handlers and was repaired (fix commit 29792fa). Not covered: that the store delivers events (C15 covers registration order).",
    ref="DESIGN.md §3 C08"),
  "C13": dict(
    technique="effect reachability over resolved calls, outcome tables over the handler's enumerated paths (failed check => no Create, error returned), discarded-error discipline over RPC-reachable functions, addressing dataflow",
-   text="The only store mutator reachable from Set is transaction.Create; every failing check returns an error without reaching it; the no-operation and size-limit tests dominate it; no RPC-reachable call drops its error while using its value; target precedence, prefix+path order and the per-operation target are as documented. Also decided: the path validity helper accepts only on a whole-string match.",
+   text="The only store mutator reachable from Set is transaction.Create; every failing check returns an error without reaching it; the no-operation and size-limit tests dominate it; no RPC-reachable call drops its error while using its value; target precedence, prefix+path order and the per-operation target are as documented. Also decided: the path validity helper accepts only on a whole-string match. Also decided: path by path what getTargetInfo resolves and registers; every check inside the per-operation helpers and the transaction builder ends the request and records nothing; updates and deletes are recorded only after the checks of their kind, including the key-value pattern for every key; the transaction record carries exactly the collected operations, overrides, strategy and user; JSON documents are resolved relative to prefix+path; Service.Register wires GNMI_SET_SIZE_LIMIT into the Server; element names are escaped.",
    note="Trusted: as C02; calls through interfaces are leaves of the reachability. The discarded NewChangeValue error found here was repaired (fix commit a5a0264). Not covered: FindPathFromModel/CheckKeyValue over all models.",
    ref="DESIGN.md §3 C13"),
  "C14": dict(
    technique="must-precede on the handler's paths (evaluation before Create), control-dependence predicate rule on the granting paths of the evaluation (equality required, substring-like predicates banned), listing predicate",
-   text="Create in Set is shown to be reachable only after the group evaluation returned nil on the incoming metadata; every granting path of the evaluation is shown to depend on an equality of a non-empty caller group with a configured group (or on the absence of all identity metadata); the target listing under authorization is shown to depend on the two documented equalities.",
+   text="Create in Set is shown to be reachable only after the group evaluation returned nil on the incoming metadata; every granting path of the evaluation is shown to depend on an equality of a non-empty caller group with a configured group (or on the absence of all identity metadata); the target listing under authorization is shown to depend on the two documented equalities. Also decided: the caller's groups are split by the ';' they are joined with and by nothing else.",
    note="Trusted: as C02. The substring/empty-group defect found here was repaired (fix commit def6732). Not covered: token validation, OPA.",
    ref="DESIGN.md §3 C14"),
  "C15": dict(
    technique="argument rule on primitive updates (IfVersion of the version read), ownership of Version/Index/Revision writes, listener-before-snapshot order on Watch paths, channel typestate (close-once, no send after close) and shared-dispatcher select rule on watch goroutines, lock pairing",
-   text="For the five stores: every primitive update is shown to be conditional on the version read for the very record written; versions and log indexes are shown to come from the primitive only; Watch is shown to register its listener before any snapshot read; watch goroutines are shown not to close twice, not to send after close, to guard every subscriber send with ctx.Done() behind a shared dispatcher, and to pair every lock. Linearizability and delivery are not decided. Also decided: a departing watcher removes only its own registration, every handed-out record carries the entry's version and index, event kinds and watch options are mapped, the address of a loop variable never outlives its iteration under the module's Go version, every exit of a watch goroutine keeps its channel drained, and names derived from a target use its whole identity.",
+   text="For the five stores: every primitive update is shown to be conditional on the version read for the very record written; versions and log indexes are shown to come from the primitive only; Watch is shown to register its listener before any snapshot read; watch goroutines are shown not to close twice, not to send after close, to guard every subscriber send with ctx.Done() behind a shared dispatcher, and to pair every lock. Linearizability and delivery are not decided. Also decided: a departing watcher removes only its own registration, every handed-out record carries the entry's version and index, event kinds and watch options are mapped, the address of a loop variable never outlives its iteration under the module's Go version, every exit of a watch goroutine keeps its channel drained, and names derived from a target use its whole identity. Also decided: dispatchers leave only at the end of the stream and are opened with context.Background(); no close of a published channel; the address of a part of a loop variable is not kept; a refused conditional write leaves no trace (this one fails on the configuration stores: known finding F35).",
    note="Trusted: go/types, the occheck path enumerator (no inlining in store packages), the rule code. The double close of the v3 transaction store and the bare forwards of four stores found here were repaired (fix commits bf36202, e48fc62, 61b4e7b). Not covered: exits of a watch goroutine during replay that do not drain the per-watch channel (observed, documented in DESIGN.md, no rule).",
    ref="DESIGN.md §3 C15"),
  "C03": dict(
    technique="path-relation lint over resolved calls (boundary-aware subtree test), helper-shape check on enumerated paths, regexp-format rule for the Get filter, map-iteration-order rule (own-key writes inside map ranges, followed one call level), persisting decision table by case evaluation",
-   text="The clauses of the sequential-effect property that are visible in the code's shape are decided: the subtree relation goes through a boundary-aware helper whose body is checked, the Get filter ends in an element boundary, writes inside map ranges of the change pipeline are keyed by the iteration's own key (this one fails today: known finding F7), tombstones are filtered on read, and the store's persist decision table is complete. Equality with a reference model over histories is not decided. Also decided: the shape of the cascade (AddDeleteChildren) and of pruning (PrunePathValues), that the store's populate() routes each primitive into its own map, that removals from the value map reach the store and ancestor tombstones are searched with the subtree relation (both fail today: known finding F25), that the Get query is normalised, and that a rollback's tombstone differs, for the store, from what the change wrote.",
+   text="The clauses of the sequential-effect property that are visible in the code's shape are decided: the subtree relation goes through a boundary-aware helper whose body is checked, the Get filter ends in an element boundary, writes inside map ranges of the change pipeline are keyed by the iteration's own key (this one fails today: known finding F7), tombstones are filtered on read, and the store's persist decision table is complete. Equality with a reference model over histories is not decided. Also decided: the shape of the cascade (AddDeleteChildren) and of pruning (PrunePathValues), that the store's populate() routes each primitive into its own map, that removals from the value map reach the store and ancestor tombstones are searched with the subtree relation (both fail today: known finding F25), that the Get query is normalised, and that a rollback's tombstone differs, for the store, from what the change wrote. Also decided: a collection that a loop fills and hands on inside the same loop is allocated per iteration (a proposal holds its own target's values only); GetParentPath cuts the last element by position.",
    note="Trusted: go/types, occheck rules. The raw-prefix defects (cascade, pruning, Get filter) found here were repaired (fix commits 2029c13, 3279374). Known finding F7 (map-order dependent merge) is listed with 7 construct keys.",
    ref="DESIGN.md §3 C03"),
  "C16": dict(
    technique="API-uniformity lint over resolved calls (one tokenizer for textual paths), extraction and comparison of the renderer's escape set and the parser's structural runes, must-precede (sort before the key loop)",
-   text="A textual path is shown to be cut on '/' only by the bracket- and escape-aware tokenizer (one exempted, guarded idiom); the rune constants the renderer escapes are shown to be the ones the splitter and key parser stop at, with backslash as the escape on both sides; keys are shown to be rendered from a sorted slice; GetParentPath is shown to go through the tokenizer. Round trip and injectivity as such are not decided. Also decided: every rune goes through the escaper, the key grammar written by the renderer is the one parseKey reads, the unescaper and the splitter loop consume what they must, and parseElement handles key-less and keyed elements as specified.",
+   text="A textual path is shown to be cut on '/' only by the bracket- and escape-aware tokenizer (one exempted, guarded idiom); the rune constants the renderer escapes are shown to be the ones the splitter and key parser stop at, with backslash as the escape on both sides; keys are shown to be rendered from a sorted slice; GetParentPath is shown to go through the tokenizer. Round trip and injectivity as such are not decided. Also decided: every rune goes through the escaper, the key grammar written by the renderer is the one parseKey reads, the unescaper and the splitter loop consume what they must, and parseElement handles key-less and keyed elements as specified. Also decided: GetParentPath cuts the last element by position; every key value of an operation path is held against the key-value pattern before the operation is recorded.",
    note="Trusted: go/types, occheck rules. The two raw-'/' cuts found here were repaired (fix commit 395fe09). Not covered: escaping of key names / '[' in names (not needed for YANG identifiers).",
    ref="DESIGN.md §3 C16"),
  "C17": dict(
    technique="extraction and comparison of the writer/reader case tables (type switch and value switch), finite evaluation of the RFC 7951 width rule on enumerated paths, narrowing-conversion scan under the build's type sizes, v2/v3 sibling fingerprints",
-   text="Every value kind the gNMI-to-native writer can produce is shown to be an explicit case of both readers, and the oneof written back for a kind to be the one the writer maps to it (scalars and leaf-list elements); unsupported kinds are shown to be refused; the JSON width rule is evaluated on every rendering path; narrowing conversions are limited to the listed, bounded ones; the v2 and v3 copies are shown to be the same statements. Digits and byte equality are not decided. Also decided: every value kind is written into the tree through its own accessor type, the width rule holds for integer leaf-lists, and the rendered document reaches the plugin byte for byte.",
+   text="Every value kind the gNMI-to-native writer can produce is shown to be an explicit case of both readers, and the oneof written back for a kind to be the one the writer maps to it (scalars and leaf-list elements); unsupported kinds are shown to be refused; the JSON width rule is evaluated on every rendering path; narrowing conversions are limited to the listed, bounded ones; the v2 and v3 copies are shown to be the same statements. Digits and byte equality are not decided. Also decided: every value kind is written into the tree through its own accessor type, the width rule holds for integer leaf-lists, and the rendered document reaches the plugin byte for byte. Also decided: the store rewrites an entry whenever its index changed (sign and width live in TypeOpts); no whole-list attribute is taken from the last element of a leaf-list.",
    note="Trusted: go/types, occheck rules, the onos-api constructor-to-kind naming table. Not covered: behaviour of onos-api typed values (including the NaN precondition, which C12 covers).",
    ref="DESIGN.md §3 C17"),
  "C18": dict(
    technique="path-relation lint (shared with C03), v2/v3 sibling fingerprints, guard conditions of the list-entry reuse on enumerated paths, comparator extraction",
-   text="The thinnest claim: pruning is shown to use the boundary-aware subtree helper, the two tree packages to be the same statements, and the three facts the list-entry argument rests on (append iff not all keys matched, mismatch resets and continues, input sorted by Path) to hold on every path. That the tree contains exactly the given leaves for all inputs is not decided. Also decided: the tree is built from the tokenizer's elements only.",
+   text="The thinnest claim: pruning is shown to use the boundary-aware subtree helper, the two tree packages to be the same statements, and the three facts the list-entry argument rests on (append iff not all keys matched, mismatch resets and continues, input sorted by Path) to hold on every path. That the tree contains exactly the given leaves for all inputs is not decided. Also decided: the tree is built from the tokenizer's elements only. Also decided: a leaf is read through the accessor of its own kind (stated under C18 as well).",
    note="Trusted: go/types, occheck rules. The pruning defects found were repaired (fix commit 2029c13).",
    ref="DESIGN.md §3 C18"),
  "C19": dict(
@@ -97,12 +97,12 @@ CHECKS = {
    ref="DESIGN.md §3 C19"),
  "C20": dict(
    technique="guard-table check transcribed from spec/Transaction.tla over the enumerated paths of the four v3 phase functions and applyValues (status wrappers inlined): dominating-condition entailment for every phase-state and cursor write, write-order rules with call events, outcome rules for the re-queue, error-domain and dropped-error discipline, nil-map and phase-status guards",
-   text="For every path of commitChange, applyChange, commitRollback, applyRollback and applyValues it is shown that each phase-state write and each cursor write sits under the enabling condition of the corresponding spec action (commit before apply, log order of commits, ordinal order of applies with the predecessor finished, abort when behind the rollback index), that the committed cursor passes a transaction only after validation or after its FAILED state was persisted, that COMPLETE follows the configuration write, that completion re-queues index+1, that the southbound Set is guarded and carries the term, and that no store error is dropped or classified in the wrong domain. The invariants Order and Consistency over histories are not decided. Also decided: the update table of each of the fourteen actions (which cursors and status fields move together), the reverse-order guards of rollbacks, the recovery branches, and the persist table of the v3 configuration store.",
+   text="For every path of commitChange, applyChange, commitRollback, applyRollback and applyValues it is shown that each phase-state write and each cursor write sits under the enabling condition of the corresponding spec action (commit before apply, log order of commits, ordinal order of applies with the predecessor finished, abort when behind the rollback index), that the committed cursor passes a transaction only after validation or after its FAILED state was persisted, that COMPLETE follows the configuration write, that completion re-queues index+1, that the southbound Set is guarded and carries the term, and that no store error is dropped or classified in the wrong domain. The invariants Order and Consistency over histories are not decided. Also decided: the update table of each of the fourteen actions (which cursors and status fields move together), the reverse-order guards of rollbacks, the recovery branches, and the persist table of the v3 configuration store. Also decided: applyChangeToConfig works on a map the function allocated itself, never on the configuration record.",
    note="Trusted: go/types, occheck path enumeration and solver, the transcription of the spec's guards. Known finding F18d (15 sites): the status wrappers swallow Conflict/NotFound and the caller goes on to the dependent write. Four v3 defects were repaired (039eee4, f9f5608, 18c731f, e6209cd). v3 is not wired into the manager.",
    ref="DESIGN.md §3 C20"),
  "C12": dict(
    technique="panic-site analysis over every module function statically reachable from the RPC handlers (and the v2 controllers): path enumeration with site events (pointer dereference, map write, index, slice, type assertion), nullability sources (optional message fields, getters, message-map elements, nil-assigned module fields, parameters through call sites) and dominating-condition entailment with caller-side guard substitution; frozen reviewed tables for assertions and panics; dataflow rule for regexp.MustCompile; NaN guard",
-   text="For each reachable function and each enumerated path it is shown that a pointer that can be nil for a decodable request is tested before a field is read through it, that maps which decode or load as nil are tested or allocated before an indexed write, that slice bounds and indexes computed from strings.Index/LastIndex (or len-1) are tested first (the one untested use is discharged by the checked shape of utils.StrPath: every path string begins with '/'), that MustCompile sees request text only through QuoteMeta, that no panic() and no single-value type assertion is reachable outside five reviewed sites, and that request floats reach big.NewFloat only after a NaN test. Absence of every run-time panic is not decided. Also decided: constant indexes into slices the function did not build are length-tested (in the function or at every call site), and helper goroutines follow the WaitGroup/close discipline.",
+   text="For each reachable function and each enumerated path it is shown that a pointer that can be nil for a decodable request is tested before a field is read through it, that maps which decode or load as nil are tested or allocated before an indexed write, that slice bounds and indexes computed from strings.Index/LastIndex (or len-1) are tested first (the one untested use is discharged by the checked shape of utils.StrPath: every path string begins with '/'), that MustCompile sees request text only through QuoteMeta, that no panic() and no single-value type assertion is reachable outside five reviewed sites, and that request floats reach big.NewFloat only after a NaN test. Absence of every run-time panic is not decided. Also decided: constant indexes into slices the function did not build are length-tested (in the function or at every call site), and helper goroutines follow the WaitGroup/close discipline. Also decided: the value of a failed call is not dereferenced on its error path (store methods included as roots); no close of a channel published in a watcher registry; integer fields of request messages are range-tested before narrowing conversions; MustCompile sees no request-sized text at all (request text is compiled with regexp.Compile); no goroutine is started before the error of the call it depends on is examined; the southbound client polls only when it knows a subscription stream exists.",
    note="Trusted: go/types, occheck walker and solver, the nullability source table, protobuf decoding facts (repeated message elements and selected oneof members are non-nil; optional message fields, empty maps and key-only map entries are nil). Not covered: function literals run as goroutines use free variables (not parameter-rooted), integer conversions, allocation sizes, third-party code, calls through interfaces. Five defects were repaired (4971eb3, 79df5d9, 9392364, 49a676b, e059f0a) in addition to 87a8378.",
    ref="DESIGN.md §3 C12"),
 }
